@@ -107,6 +107,8 @@ type c18cfg struct {
 	cutAfter  time.Duration
 	cancelAt  time.Duration
 	unregAt   time.Duration
+	cutFirst  bool // the link breaks right before the user cancels: the abort message cannot be written
+	bApproves bool // B's user approves at the moment A's user cancels
 }
 
 func c18Body(c c18cfg) func() {
@@ -133,7 +135,25 @@ func c18Body(c c18cfg) func() {
 				at = 2 * time.Second
 			}
 			simrt.RunFor(at)
-			a.Hub.CancelPairingWithSKI(b.SKI)
+			switch {
+			case c.cutFirst:
+				// the link dies at the moment the user cancels: the transport may already be closed when the abort is written
+				simrt.Mark()
+				simrt.Go("userA", func() { a.Hub.CancelPairingWithSKI(b.SKI) })
+				for _, l := range fakews.Links() {
+					_ = l.Server.Close()
+				}
+				simrt.RunFor(20 * time.Millisecond)
+				simrt.Unmark()
+			case c.bApproves:
+				simrt.Mark()
+				simrt.Go("userB", func() { b.Hub.RegisterRemoteSKI(a.SKI) })
+				simrt.Go("userA", func() { a.Hub.CancelPairingWithSKI(b.SKI) })
+				simrt.RunFor(20 * time.Millisecond)
+				simrt.Unmark()
+			default:
+				a.Hub.CancelPairingWithSKI(b.SKI)
+			}
 		}
 		if c.unregAt > 0 {
 			simrt.RunFor(c.unregAt)
@@ -156,11 +176,16 @@ func c18Body(c c18cfg) func() {
 				if strings.Contains(e.TName, "HandleShipHandshakeStateUpdate") {
 					return float64(e.Tid)
 				}
-				return float64(e.MaxTid) + 0.5
+				// MaxTid threads existed (ids 0..MaxTid-1) when the synchronous notification was made
+				return float64(e.MaxTid) - 0.5
 			}
 			for i := 1; i < len(seq); i++ {
 				if stamp(seq[i]) < stamp(seq[i-1]) && seq[i].Arg != seq[i-1].Arg {
-					simrt.Fail("C18|older-after-newer", "hub %s: pairing state %s (created earlier) was delivered after the newer state %s; delivered sequence %v", p.n.Name, seq[i].Arg, seq[i-1].Arg, args(seq))
+					var det []string
+					for _, e := range seq {
+						det = append(det, fmt.Sprintf("%s(by T%d %s, threads so far %d)", e.Arg, e.Tid, e.TName, e.MaxTid))
+					}
+					simrt.Fail("C18|older-after-newer", "hub %s: pairing state %s (created earlier) was delivered after the newer state %s; delivered sequence %v", p.n.Name, seq[i].Arg, seq[i-1].Arg, det)
 					break
 				}
 			}
@@ -192,6 +217,8 @@ func c18Scenarios(r *hx.Run) []hx.Scenario {
 		{name: "unregister-early", bTrustsA: true, bWaits: true, unregAt: 100 * time.Millisecond},
 		{name: "unregister-late", bTrustsA: true, bWaits: true, unregAt: 2 * time.Second},
 		{name: "error-cut", bTrustsA: true, bWaits: true, cutAfter: 0},
+		{name: "local-cancel-broken-link", bTrustsA: false, bWaits: true, aCancels: true, cutFirst: true},
+		{name: "local-cancel-vs-remote-approve", bTrustsA: false, bWaits: true, aCancels: true, bApproves: true},
 	}
 	var out []hx.Scenario
 	for _, c := range cfgs {
@@ -200,6 +227,12 @@ func c18Scenarios(r *hx.Run) []hx.Scenario {
 		pb := 1
 		if r.Thorough() {
 			pb = 2
+		}
+		if c.cutFirst || c.bApproves {
+			// the user operation races with the transport / the peer: branch among the user thread and the pumps
+			out = append(out, hx.Scenario{Name: "c18:race:" + c.name, Body: c18Body(c), Bounds: simrt.B(pb, 0, 0),
+				Cfg: simrt.Config{MaxSteps: 100000, BranchAfterMark: true, BranchOnly: []string{"user", "readShipPump", "writeShipPump"}}})
+			continue
 		}
 		out = append(out, hx.Scenario{Name: "c18:timely:" + c.name, Body: c18Body(c), Bounds: simrt.B(pb, 0, 0),
 			Cfg: simrt.Config{MaxSteps: 100000, BranchOnly: []string{"HandleShipHandshakeStateUpdate"}, BranchNoStart: true}})
